@@ -672,9 +672,33 @@ func c17Admission(c *Ctx) {
 		trail = append(trail, b.Index)
 		last := b.Instrs[len(b.Instrs)-1]
 		if ret, ok := last.(*ssa.Return); ok {
-			v, isB := boolConst(ret.Results[0])
+			rv := ret.Results[0]
+			// `return a || b`: the returned value is a phi fed by the short-circuit edges; on this path
+			// it is the value of the edge the path came in by
+			if ph, isPhi := rv.(*ssa.Phi); isPhi && ph.Block() == b && len(trail) >= 2 {
+				for i, pb := range b.Preds {
+					if pb.Index == trail[len(trail)-2] {
+						rv = ph.Edges[i]
+					}
+				}
+			}
+			v, isB := boolConst(rv)
 			if isB && !v {
 				return
+			}
+			if !isB {
+				// a returned atom: the path accepts only when it is true
+				if name, pol, isAtom := atom(rv); isAtom {
+					if old, known := l[name]; known && old != pol {
+						return // the path returns false
+					}
+					nl := lits{}
+					for k, vv := range l {
+						nl[k] = vv
+					}
+					nl[name] = pol
+					l = nl
+				}
 			}
 			nPaths++
 			sVal, sKnown := l["S"]
@@ -785,7 +809,9 @@ func c17NoDowngrade(c *Ctx) {
 			return ok && k.Value != nil && k.Value.Kind() == constant.String && constant.StringVal(k.Value) == "rtsps"
 		}
 		ff := &factFlow{}
-		ff.inline = func(h *ssa.Function) bool { return h.Pkg == acc.Fn.Pkg && !token.IsExported(h.Name()) && len(h.Blocks) <= 12 }
+		ff.inline = func(h *ssa.Function) bool {
+			return h.Pkg == acc.Fn.Pkg && !token.IsExported(h.Name()) && len(h.Blocks) <= 12
+		}
 		ff.onEdge = func(cond ssa.Value, pol bool, res func(ssa.Value) ssa.Value) (uint, uint) {
 			bo, ok := cond.(*ssa.BinOp)
 			if !ok || (bo.Op != token.EQL && bo.Op != token.NEQ) {
@@ -1338,7 +1364,9 @@ func c18Start(c *Ctx) {
 			return fieldOfLoad(x) == "WriteQueueSize" && fieldOfLoad(res(stripConv(sub.X))) == "WriteQueueSize"
 		}
 		ff := &factFlow{}
-		ff.inline = func(h *ssa.Function) bool { return h.Pkg == fn.Pkg && !token.IsExported(h.Name()) && len(h.Blocks) <= 40 }
+		ff.inline = func(h *ssa.Function) bool {
+			return h.Pkg == fn.Pkg && !token.IsExported(h.Name()) && len(h.Blocks) <= 40
+		}
 		ff.onEdge = func(cond ssa.Value, pol bool, res func(ssa.Value) ssa.Value) (uint, uint) {
 			bo, ok := cond.(*ssa.BinOp)
 			if !ok {
